@@ -526,7 +526,8 @@ func (s *State) diffIOSACLs(al, bl []*cmd, diff []edit.Range) {
 				moveOK = moveOK && action0 == getIOSAction(b)
 				p := s.printNetspocCmd(b)
 				p = stripLogRX.ReplaceAllLiteralString(p, "")
-				if cmdPos, found := delMap[p]; found {
+				// Line can be moved only once, if ACL has duplicate lines.
+				if cmdPos, found := delMap[p]; found && cmdPos.cmd != nil {
 					moveACL(cmdPos, b, r.LowA, i, moveOK, sameAct)
 				} else {
 					addACL(b, r.LowA, i)
